@@ -832,6 +832,14 @@ def generate_attr_defaults_init(
             builder.add(Return(builder.false()))
             builder.activate_block(continue_block)
 
+        # Attributes that already hold a default when a store below runs (set by the chained parent
+        # setup, or by an earlier store for a base class): only the first store to a slot may be an
+        # initializer, later ones must release the value they overwrite.
+        initialized: set[str] = set()
+        if parent_with_defaults is not None:
+            for ancestor in cls.mro[1:]:
+                initialized |= ancestor.attrs_with_defaults
+
         for stmt, origin_module in default_assignments:
             lvalue = stmt.lvalues[0]
             assert isinstance(lvalue, NameExpr), lvalue
@@ -850,7 +858,9 @@ def generate_attr_defaults_init(
             finally:
                 builder.globals_lookup_module = None
             init = SetAttr(self_var, lvalue.name, val, stmt.rvalue.line)
-            init.mark_as_initializer()
+            if lvalue.name not in initialized:
+                init.mark_as_initializer()
+                initialized.add(lvalue.name)
             builder.add(init)
 
         builder.add(Return(builder.true()))
